@@ -256,6 +256,20 @@ func buildIntrinsics() map[string]intrinsic {
 		m.regions = append(m.regions, region{m.goString(a[0], "Region id"), a[1].(*sym.Term)})
 		return nil
 	}
+	// SetField(ptrToStruct, "Field", value): lets a harness stand-in of a decoder fill a target whose
+	// (function-local) type it cannot name
+	t[apiPkg+".SetField"] = func(m *Machine, fr *frame, a []Value) Value {
+		obj, ok := a[0].(Iface)
+		cell, ok2 := obj.V.(*Value)
+		if !ok || !ok2 || cell == nil {
+			m.unsupported("SetField: target is not a pointer to a struct")
+		}
+		name := m.goString(a[1], "SetField name")
+		st := (*cell).(Struct)
+		v := a[2].(Iface)
+		st[fieldIndex(obj.T, name)] = copyVal(v.V)
+		return nil
+	}
 	t[apiPkg+".Concurrent"] = func(m *Machine, fr *frame, a []Value) Value {
 		m.threadLayer().prefix = m.goString(a[0], "Concurrent prefix")
 		return nil
